@@ -698,7 +698,12 @@ func clamp(x, lo, hi int) int {
 
 type fakeVM struct {
 	base  types.ChainID
-	forks []uint64 // ascending; version = number of fork heights <= no
+	forks []uint64 // ascending; the era of a height = number of fork heights <= it
+	// vers[k] = chain id version in era k (nil: base.Version + k)
+	vers []int32
+	// real, when set, answers GetChainID (the production ChainService.ChainID); expected stays the harness's own
+	// computation from the configured fork heights, used by the oracle and for the op lines
+	real func(no types.BlockNo) *types.ChainID
 }
 
 func (f *fakeVM) FindBestP2PVersion(versions []p2pcommon.P2PVersion) p2pcommon.P2PVersion {
@@ -709,14 +714,26 @@ func (f *fakeVM) GetVersionedHandshaker(version p2pcommon.P2PVersion, peerID typ
 }
 func (f *fakeVM) GetBestChainID() *types.ChainID { return f.GetChainID(0) }
 func (f *fakeVM) GetChainID(no types.BlockNo) *types.ChainID {
+	if f.real != nil {
+		return f.real(no)
+	}
+	return f.expected(no)
+}
+
+// expected: the node's chain id at a height, computed from the configured fork heights only.
+func (f *fakeVM) expected(no types.BlockNo) *types.ChainID {
 	cp := f.base
-	v := int32(0)
+	era := 0
 	for _, h := range f.forks {
 		if h <= no {
-			v++
+			era++
 		}
 	}
-	cp.Version = f.base.Version + v
+	if f.vers != nil {
+		cp.Version = f.vers[era]
+	} else {
+		cp.Version = f.base.Version + int32(era)
+	}
 	return &cp
 }
 
@@ -821,7 +838,7 @@ func hsRun(run *vh.Run, ver int, c hsCase, field string, single bool) bool {
 	_ = no
 	_ = meta
 	st := c.st
-	local := c.vm.GetChainID(st.BestHeight)
+	local := c.vm.expected(st.BestHeight)
 	var sb strings.Builder
 	fmt.Fprintf(&sb, "hs %d %d %d %d %s %s %s %s %s %d %s %s", ver, uint32(local.Version), b2i(local.PublicNet), b2i(local.MainNet),
 		hx([]byte(local.Magic)), hx([]byte(local.Consensus)), hx([]byte(c.peerID)), hx(c.genesis),
@@ -884,6 +901,162 @@ func b2i(b bool) int {
 	return 0
 }
 
+// mut is one way a status message can deviate from the local view (or the local view from the message).
+type mut struct {
+	name string
+	f    func(c *hsCase)
+}
+
+var (
+	addrsOK  = []string{"192.168.1.2", "dummy.aergo.io", "::1", "2001:db8::1", "localhost", "a.b"}
+	addrsBad = []string{"", "a b", "http://x.y", "1.2.3.4:80", "!!", "-x.com", "x..y"}
+)
+
+// statusMuts: every single field of a status message differing from the local one.
+func statusMuts(rng *vh.Rng, vm *fakeVM, bps []bpKey) []mut {
+	return []mut{
+		{"chain.version", func(c *hsCase) {
+			binary.LittleEndian.PutUint32(c.st.ChainID[0:4], uint32(int32(binary.LittleEndian.Uint32(c.st.ChainID[0:4]))+int32(1+rng.Intn(3))*(1-2*int32(rng.Intn(2)))))
+		}},
+		{"chain.public", func(c *hsCase) { c.st.ChainID[4] ^= 1 }},
+		{"chain.mainnet", func(c *hsCase) { c.st.ChainID[5] ^= 1 }},
+		{"chain.boolbyte", func(c *hsCase) { // a non-canonical "true": still the same chain id for ChainID.Read
+			if c.st.ChainID[4] != 0 {
+				c.st.ChainID[4] = byte(2 + rng.Intn(254))
+			} else if c.st.ChainID[5] != 0 {
+				c.st.ChainID[5] = byte(2 + rng.Intn(254))
+			}
+		}},
+		{"chain.magic", func(c *hsCase) {
+			i := bytes.IndexByte(c.st.ChainID[6:], '/') + 6
+			mg := c.st.ChainID[6:i]
+			var nm []byte
+			for {
+				nm = flipBytes(mg, rng)
+				if !bytes.Equal(nm, mg) && bytes.IndexByte(nm, '/') < 0 {
+					break
+				}
+			}
+			c.st.ChainID = append(append(append([]byte{}, c.st.ChainID[:6]...), nm...), c.st.ChainID[i:]...)
+		}},
+		{"chain.consensus", func(c *hsCase) {
+			i := bytes.IndexByte(c.st.ChainID[6:], '/') + 7
+			cs := c.st.ChainID[i:]
+			var nc []byte
+			for {
+				nc = flipBytes(cs, rng)
+				if !bytes.Equal(nc, cs) && bytes.IndexByte(nc, '/') < 0 {
+					break
+				}
+			}
+			c.st.ChainID = append(append([]byte{}, c.st.ChainID[:i]...), nc...)
+		}},
+		{"chain.malformed", func(c *hsCase) {
+			switch rng.Intn(5) {
+			case 0:
+				c.st.ChainID = c.st.ChainID[:rng.Intn(6)]
+			case 1:
+				c.st.ChainID = nil
+			case 2:
+				c.st.ChainID = bytes.ReplaceAll(c.st.ChainID[:], []byte("/"), []byte("_"))
+				if bytes.IndexByte(c.st.ChainID, '/') >= 0 { // a '/' inside the fixed part stays: force none after byte 6
+					c.st.ChainID = append(c.st.ChainID[:6:6], bytes.ReplaceAll(c.st.ChainID[6:], []byte("/"), []byte("_"))...)
+				}
+			case 3:
+				c.st.ChainID = append(c.st.ChainID, '/')
+			default:
+				c.st.ChainID = append(c.st.ChainID, []byte("/x")...)
+			}
+		}},
+		{"height.other-era", func(c *hsCase) {
+			if len(vm.forks) == 0 {
+				c.st.BestHeight += uint64(1 + rng.Intn(1000)) // no fork: same era, still accepted
+				return
+			}
+			cur := vm.expected(c.st.BestHeight).Version
+			for {
+				hh := uint64(rng.Intn(int(vm.forks[len(vm.forks)-1]) + 10))
+				if vm.expected(hh).Version != cur {
+					c.st.BestHeight = hh
+					return
+				}
+			}
+		}},
+		{"height.same-era", func(c *hsCase) {
+			cur := vm.expected(c.st.BestHeight).Version
+			for d := uint64(1); d < 4; d++ {
+				if vm.expected(c.st.BestHeight+d).Version == cur {
+					c.st.BestHeight += d
+					return
+				}
+			}
+		}},
+		{"besthash.length", func(c *hsCase) {
+			c.st.BestBlockHash = [][]byte{nil, {}, rng.Bytes(31), rng.Bytes(33), rng.Bytes(1), rng.Bytes(64)}[rng.Intn(6)]
+		}},
+		{"besthash.value", func(c *hsCase) { c.st.BestBlockHash = rng.Bytes(32) }},
+		{"sender.nil", func(c *hsCase) { c.st.Sender = nil }},
+		{"sender.address-bad", func(c *hsCase) { c.st.Sender.Address = addrsBad[rng.Intn(len(addrsBad))] }},
+		{"sender.address-other", func(c *hsCase) { c.st.Sender.Address = addrsOK[rng.Intn(len(addrsOK))] }},
+		{"sender.peerid", func(c *hsCase) {
+			switch rng.Intn(4) {
+			case 0:
+				c.st.Sender.PeerID = []byte(newPeerID(rng))
+			case 1:
+				c.st.Sender.PeerID = c.st.Sender.PeerID[:len(c.st.Sender.PeerID)-1]
+			case 2:
+				c.st.Sender.PeerID = nil
+			default:
+				c.st.Sender.PeerID[rng.Intn(len(c.st.Sender.PeerID))] ^= byte(1 << uint(rng.Intn(8)))
+			}
+		}},
+		{"genesis", func(c *hsCase) {
+			for {
+				g := flipBytes(c.st.Genesis, rng)
+				if !bytes.Equal(g, c.genesis) {
+					c.st.Genesis = g
+					return
+				}
+			}
+		}},
+		{"local.genesis", func(c *hsCase) { c.genesis = rng.Bytes(32) }},
+		{"local.peerid", func(c *hsCase) { c.peerID = newPeerID(rng) }},
+		{"role.unknown", func(c *hsCase) { c.st.Sender.Role = types.PeerRole(4 + rng.Intn(100)) }},
+		{"role.agent-noproducers", func(c *hsCase) { c.st.Sender.Role = types.PeerRole_Agent; c.st.Sender.ProducerIDs = nil }},
+		{"role.agent-foreign-cert", func(c *hsCase) {
+			c.st.Sender.Role = types.PeerRole_Agent
+			c.st.Sender.ProducerIDs = [][]byte{[]byte(bps[0].id)}
+			ct, _ := p2putil.NewAgentCertV1(bps[0].id, newPeerID(rng), bps[0].priv, []string{"192.168.1.2"}, time.Hour)
+			pc, _ := p2putil.ConvertCertToProto(ct)
+			c.st.Certificates = []*types.AgentCertificate{pc}
+		}},
+		{"role.agent-unlisted-bp", func(c *hsCase) {
+			c.st.Sender.Role = types.PeerRole_Agent
+			c.st.Sender.ProducerIDs = [][]byte{[]byte(bps[0].id)}
+			ct, _ := p2putil.NewAgentCertV1(bps[1].id, c.peerID, bps[1].priv, []string{"192.168.1.2"}, time.Hour)
+			pc, _ := p2putil.ConvertCertToProto(ct)
+			c.st.Certificates = []*types.AgentCertificate{pc}
+		}},
+		{"role.agent-bad-signature", func(c *hsCase) {
+			c.st.Sender.Role = types.PeerRole_Agent
+			c.st.Sender.ProducerIDs = [][]byte{[]byte(bps[0].id)}
+			ct, _ := p2putil.NewAgentCertV1(bps[0].id, c.peerID, bps[0].priv, []string{"192.168.1.2"}, time.Hour)
+			pc, _ := p2putil.ConvertCertToProto(ct)
+			pc.ExpireTime++ // signed content changed
+			c.st.Certificates = []*types.AgentCertificate{pc}
+		}},
+		{"role.agent-good", func(c *hsCase) {
+			c.st.Sender.Role = types.PeerRole_Agent
+			c.st.Sender.ProducerIDs = [][]byte{[]byte(bps[0].id), []byte(bps[2].id)}
+			ct, _ := p2putil.NewAgentCertV1(bps[2].id, c.peerID, bps[2].priv, []string{"192.168.1.2"}, time.Hour)
+			pc, _ := p2putil.ConvertCertToProto(ct)
+			c.st.Certificates = []*types.AgentCertificate{pc}
+		}},
+		{"noexpose", func(c *hsCase) { c.st.NoExpose = !c.st.NoExpose }},
+		{"version-string", func(c *hsCase) { c.st.Version = "v9.9.9"; c.st.Sender.Version = "zzz" }},
+	}
+}
+
 func handshake(run *vh.Run) {
 	rng := run.Rng
 	nop := zerolog.Nop()
@@ -891,8 +1064,6 @@ func handshake(run *vh.Run) {
 	bps := []bpKey{newBP(rng), newBP(rng), newBP(rng)}
 	magics := []string{"aergo.io", "testnet.aergo.io", "itSmain1", "x", ""}
 	conses := []string{"dpos", "raft", "sbp", ""}
-	addrsOK := []string{"192.168.1.2", "dummy.aergo.io", "::1", "2001:db8::1", "localhost", "a.b"}
-	addrsBad := []string{"", "a b", "http://x.y", "1.2.3.4:80", "!!", "-x.com", "x..y"}
 	for i := 0; i < run.Pick(400, 3000); i++ {
 		vm := &fakeVM{base: types.ChainID{Version: int32(rng.Intn(4)), PublicNet: rng.Bool(), MainNet: rng.Bool(),
 			Magic: magics[rng.Intn(len(magics))], Consensus: conses[rng.Intn(len(conses))]}}
@@ -907,7 +1078,7 @@ func handshake(run *vh.Run) {
 		if len(vm.forks) > 0 && rng.Chance(1, 2) {
 			height = vm.forks[rng.Intn(len(vm.forks))] + uint64(rng.Intn(3)) - 1
 		}
-		cid, err := vm.GetChainID(height).Bytes()
+		cid, err := vm.expected(height).Bytes()
 		if err != nil {
 			panic(err)
 		}
@@ -941,151 +1112,7 @@ func handshake(run *vh.Run) {
 				run.Count("hs-base-status-rejected")
 			}
 			// every single field differing from the local one
-			type mut struct {
-				name string
-				f    func(c *hsCase)
-			}
-			muts := []mut{
-				{"chain.version", func(c *hsCase) {
-					binary.LittleEndian.PutUint32(c.st.ChainID[0:4], uint32(int32(binary.LittleEndian.Uint32(c.st.ChainID[0:4]))+int32(1+rng.Intn(3))*(1-2*int32(rng.Intn(2)))))
-				}},
-				{"chain.public", func(c *hsCase) { c.st.ChainID[4] ^= 1 }},
-				{"chain.mainnet", func(c *hsCase) { c.st.ChainID[5] ^= 1 }},
-				{"chain.boolbyte", func(c *hsCase) { // a non-canonical "true": still the same chain id for ChainID.Read
-					if c.st.ChainID[4] != 0 {
-						c.st.ChainID[4] = byte(2 + rng.Intn(254))
-					} else if c.st.ChainID[5] != 0 {
-						c.st.ChainID[5] = byte(2 + rng.Intn(254))
-					}
-				}},
-				{"chain.magic", func(c *hsCase) {
-					i := bytes.IndexByte(c.st.ChainID[6:], '/') + 6
-					mg := c.st.ChainID[6:i]
-					var nm []byte
-					for {
-						nm = flipBytes(mg, rng)
-						if !bytes.Equal(nm, mg) && bytes.IndexByte(nm, '/') < 0 {
-							break
-						}
-					}
-					c.st.ChainID = append(append(append([]byte{}, c.st.ChainID[:6]...), nm...), c.st.ChainID[i:]...)
-				}},
-				{"chain.consensus", func(c *hsCase) {
-					i := bytes.IndexByte(c.st.ChainID[6:], '/') + 7
-					cs := c.st.ChainID[i:]
-					var nc []byte
-					for {
-						nc = flipBytes(cs, rng)
-						if !bytes.Equal(nc, cs) && bytes.IndexByte(nc, '/') < 0 {
-							break
-						}
-					}
-					c.st.ChainID = append(append([]byte{}, c.st.ChainID[:i]...), nc...)
-				}},
-				{"chain.malformed", func(c *hsCase) {
-					switch rng.Intn(5) {
-					case 0:
-						c.st.ChainID = c.st.ChainID[:rng.Intn(6)]
-					case 1:
-						c.st.ChainID = nil
-					case 2:
-						c.st.ChainID = bytes.ReplaceAll(c.st.ChainID[:], []byte("/"), []byte("_"))
-						if bytes.IndexByte(c.st.ChainID, '/') >= 0 { // a '/' inside the fixed part stays: force none after byte 6
-							c.st.ChainID = append(c.st.ChainID[:6:6], bytes.ReplaceAll(c.st.ChainID[6:], []byte("/"), []byte("_"))...)
-						}
-					case 3:
-						c.st.ChainID = append(c.st.ChainID, '/')
-					default:
-						c.st.ChainID = append(c.st.ChainID, []byte("/x")...)
-					}
-				}},
-				{"height.other-era", func(c *hsCase) {
-					if len(vm.forks) == 0 {
-						c.st.BestHeight += uint64(1 + rng.Intn(1000)) // no fork: same era, still accepted
-						return
-					}
-					cur := vm.GetChainID(c.st.BestHeight).Version
-					for {
-						hh := uint64(rng.Intn(int(vm.forks[len(vm.forks)-1]) + 10))
-						if vm.GetChainID(hh).Version != cur {
-							c.st.BestHeight = hh
-							return
-						}
-					}
-				}},
-				{"height.same-era", func(c *hsCase) {
-					cur := vm.GetChainID(c.st.BestHeight).Version
-					for d := uint64(1); d < 4; d++ {
-						if vm.GetChainID(c.st.BestHeight+d).Version == cur {
-							c.st.BestHeight += d
-							return
-						}
-					}
-				}},
-				{"besthash.length", func(c *hsCase) {
-					c.st.BestBlockHash = [][]byte{nil, {}, rng.Bytes(31), rng.Bytes(33), rng.Bytes(1), rng.Bytes(64)}[rng.Intn(6)]
-				}},
-				{"besthash.value", func(c *hsCase) { c.st.BestBlockHash = rng.Bytes(32) }},
-				{"sender.nil", func(c *hsCase) { c.st.Sender = nil }},
-				{"sender.address-bad", func(c *hsCase) { c.st.Sender.Address = addrsBad[rng.Intn(len(addrsBad))] }},
-				{"sender.address-other", func(c *hsCase) { c.st.Sender.Address = addrsOK[rng.Intn(len(addrsOK))] }},
-				{"sender.peerid", func(c *hsCase) {
-					switch rng.Intn(4) {
-					case 0:
-						c.st.Sender.PeerID = []byte(newPeerID(rng))
-					case 1:
-						c.st.Sender.PeerID = c.st.Sender.PeerID[:len(c.st.Sender.PeerID)-1]
-					case 2:
-						c.st.Sender.PeerID = nil
-					default:
-						c.st.Sender.PeerID[rng.Intn(len(c.st.Sender.PeerID))] ^= byte(1 << uint(rng.Intn(8)))
-					}
-				}},
-				{"genesis", func(c *hsCase) {
-					for {
-						g := flipBytes(c.st.Genesis, rng)
-						if !bytes.Equal(g, c.genesis) {
-							c.st.Genesis = g
-							return
-						}
-					}
-				}},
-				{"local.genesis", func(c *hsCase) { c.genesis = rng.Bytes(32) }},
-				{"local.peerid", func(c *hsCase) { c.peerID = newPeerID(rng) }},
-				{"role.unknown", func(c *hsCase) { c.st.Sender.Role = types.PeerRole(4 + rng.Intn(100)) }},
-				{"role.agent-noproducers", func(c *hsCase) { c.st.Sender.Role = types.PeerRole_Agent; c.st.Sender.ProducerIDs = nil }},
-				{"role.agent-foreign-cert", func(c *hsCase) {
-					c.st.Sender.Role = types.PeerRole_Agent
-					c.st.Sender.ProducerIDs = [][]byte{[]byte(bps[0].id)}
-					ct, _ := p2putil.NewAgentCertV1(bps[0].id, newPeerID(rng), bps[0].priv, []string{"192.168.1.2"}, time.Hour)
-					pc, _ := p2putil.ConvertCertToProto(ct)
-					c.st.Certificates = []*types.AgentCertificate{pc}
-				}},
-				{"role.agent-unlisted-bp", func(c *hsCase) {
-					c.st.Sender.Role = types.PeerRole_Agent
-					c.st.Sender.ProducerIDs = [][]byte{[]byte(bps[0].id)}
-					ct, _ := p2putil.NewAgentCertV1(bps[1].id, c.peerID, bps[1].priv, []string{"192.168.1.2"}, time.Hour)
-					pc, _ := p2putil.ConvertCertToProto(ct)
-					c.st.Certificates = []*types.AgentCertificate{pc}
-				}},
-				{"role.agent-bad-signature", func(c *hsCase) {
-					c.st.Sender.Role = types.PeerRole_Agent
-					c.st.Sender.ProducerIDs = [][]byte{[]byte(bps[0].id)}
-					ct, _ := p2putil.NewAgentCertV1(bps[0].id, c.peerID, bps[0].priv, []string{"192.168.1.2"}, time.Hour)
-					pc, _ := p2putil.ConvertCertToProto(ct)
-					pc.ExpireTime++ // signed content changed
-					c.st.Certificates = []*types.AgentCertificate{pc}
-				}},
-				{"role.agent-good", func(c *hsCase) {
-					c.st.Sender.Role = types.PeerRole_Agent
-					c.st.Sender.ProducerIDs = [][]byte{[]byte(bps[0].id), []byte(bps[2].id)}
-					ct, _ := p2putil.NewAgentCertV1(bps[2].id, c.peerID, bps[2].priv, []string{"192.168.1.2"}, time.Hour)
-					pc, _ := p2putil.ConvertCertToProto(ct)
-					c.st.Certificates = []*types.AgentCertificate{pc}
-				}},
-				{"noexpose", func(c *hsCase) { c.st.NoExpose = !c.st.NoExpose }},
-				{"version-string", func(c *hsCase) { c.st.Version = "v9.9.9"; c.st.Sender.Version = "zzz" }},
-			}
+			muts := statusMuts(rng, vm, bps)
 			for _, m := range muts {
 				c := mk()
 				m.f(&c)
@@ -1418,5 +1445,6 @@ func main() {
 	run.Rng = run.Rng.Fork()
 	framing(run)
 	handshake(run)
+	wireHandshake(run)
 	blockid(run)
 }
